@@ -17,7 +17,7 @@ use allsorts::cff::{
 };
 use allsorts::error::WriteError;
 use allsorts::tables::variable_fonts::fvar::FvarTable;
-use allsorts::tables::variable_fonts::{DeltaSetIndexMapEntry, ItemVariationStore};
+use allsorts::tables::variable_fonts::{DeltaSetIndexMapEntry, ItemVariationStore, VariationRegion, VariationRegionList};
 use allsorts::tables::F2Dot14;
 use proptest::prelude::*;
 use std::convert::TryFrom;
@@ -254,6 +254,18 @@ pub struct IndexM {
     objs: Vec<(u32, u8)>,
     off_size: u8,
     count32: bool,
+    /// that many further empty objects follow the first object (counts at the 16-bit edge of the
+    /// count field without a 65536-element model; 0 everywhere but in the `index:count>=65535` class)
+    pad_empty: u32,
+}
+
+/// all objects of the model: the first one, the padding of empty objects, the others
+fn index_model_objects(m: &IndexM) -> Vec<Vec<u8>> {
+    let mut v: Vec<Vec<u8>> = Vec::with_capacity(m.objs.len() + m.pad_empty as usize);
+    v.extend(m.objs.iter().take(1).map(obj_bytes));
+    v.extend((0..m.pad_empty).map(|_| Vec::new()));
+    v.extend(m.objs.iter().skip(1).map(obj_bytes));
+    v
 }
 
 fn obj_bytes(o: &(u32, u8)) -> Vec<u8> {
@@ -265,9 +277,8 @@ fn index_objects(idx: allsorts::cff::Index<'_>) -> Vec<Vec<u8>> {
     (0..m.len()).map(|i| m.read_object(i).map(|o| o.to_vec()).unwrap_or_default()).collect()
 }
 
-fn check_index(m: &IndexM, rec: &mut Rec) -> CaseResult {
-    let objs: Vec<Vec<u8>> = m.objs.iter().map(obj_bytes).collect();
-    let raw = enc_index(&objs, m.off_size, m.count32);
+/// read / write / read / write of one INDEX (16- or 32-bit count) with the objects compared with the model
+fn index_generations(raw: &[u8], objs: &[Vec<u8>], count32: bool) -> Result<Vec<u8>, crate::engine::Fail> {
     let same = |a: &allsorts::cff::Index<'_>, b: &allsorts::cff::Index<'_>| -> Result<(), String> {
         let (oa, ob) = (index_objects(a.clone()), index_objects(b.clone()));
         if oa != objs || ob != objs {
@@ -275,11 +286,38 @@ fn check_index(m: &IndexM, rec: &mut Rec) -> CaseResult {
         }
         Ok(())
     };
-    let g2 = if m.count32 {
-        stable!("index32", &raw, |d| ReadScope::new(d).read::<IndexU32>(), |t| wb::<IndexU32, _>(t), |a, b| same(a, b))
+    Ok(if count32 {
+        stable!("index32", raw, |d| ReadScope::new(d).read::<IndexU32>(), |t| wb::<IndexU32, _>(t), |a, b| same(a, b))
     } else {
-        stable!("index", &raw, |d| ReadScope::new(d).read::<IndexU16>(), |t| wb::<IndexU16, _>(t), |a, b| same(a, b))
-    };
+        stable!("index", raw, |d| ReadScope::new(d).read::<IndexU16>(), |t| wb::<IndexU16, _>(t), |a, b| same(a, b))
+    })
+}
+
+fn check_index(m: &IndexM, rec: &mut Rec) -> CaseResult {
+    let objs: Vec<Vec<u8>> = index_model_objects(m);
+    let raw = enc_index(&objs, m.off_size, m.count32);
+    rec.class_if(objs.len() >= 65535, if objs.len() > 65535 { "index:count>65535(count32)" } else { "index:count=65535" });
+    let g2 = index_generations(&raw, &objs, m.count32).map_err(|f| {
+        // Defect model "the 32-bit count is converted through 16 bits": a parsed INDEX is refused exactly when it has
+        // more than 65535 objects. Attributed when the same INDEX cut down to 65535 objects (everything else equal) is written.
+        if m.count32 && objs.len() > 65535 && f.sig == "C15:index32:write-of-parsed-refused" {
+            let cut = &objs[..65535];
+            let cut_raw = enc_index(cut, m.off_size, true);
+            if index_generations(&cut_raw, cut, true).is_ok() {
+                return fail(
+                    "index32:count-above-65535-refused",
+                    format!(
+                        "a CFF2 INDEX with {} objects (uint32 count, {} bytes: {}) parses but IndexU32::write refuses it, while the same INDEX cut to 65535 objects is written: the count does not exceed its 32-bit field; {}",
+                        objs.len(),
+                        raw.len(),
+                        hexs(&raw[..raw.len().min(12)]),
+                        f.msg.split(';').next().unwrap_or("")
+                    ),
+                );
+            }
+        }
+        f
+    })?;
     let (dec, used, _) = dec_index(&g2, m.count32).map_err(|e| fail("index:written-undecodable", e))?;
     if dec != objs || used != g2.len() {
         return Err(fail("index:written-differs", format!("{} objects decoded from {} of {} bytes, model {}", dec.len(), used, g2.len(), objs.len())));
@@ -297,6 +335,7 @@ fn check_index(m: &IndexM, rec: &mut Rec) -> CaseResult {
     rec.set_nontrivial(objs.len() >= 2 || [255, 256, 65535, 65536].contains(&total));
     rec.hash_bytes(&raw[..raw.len().min(2048)]);
     rec.hash_u64(total as u64);
+    rec.hash_u64(objs.len() as u64);
     Ok(())
 }
 
@@ -307,7 +346,23 @@ fn index_strategy() -> impl Strategy<Value = IndexM> {
         let first = first.min(total);
         vec![(first, s), (0, s), (total - first, s.wrapping_add(1))]
     });
-    (prop_oneof![4 => small, 1 => edge], prop_oneof![3 => Just(0u8), 1 => 1u8..5], proptest::bool::weighted(0.3)).prop_map(|(objs, off_size, count32)| IndexM { objs, off_size, count32 })
+    (prop_oneof![4 => small, 1 => edge], prop_oneof![3 => Just(0u8), 1 => 1u8..5], proptest::bool::weighted(0.3)).prop_map(|(objs, off_size, count32)| IndexM { objs, off_size, count32, pad_empty: 0 })
+}
+
+/// `index_strategy` plus, rarely (the cases are large), INDEXes whose object count sits at the 16-bit edge of the
+/// count field: 65535 objects under either count width, 65536 and more under the 32-bit count of CFF2
+fn index_strategy_with_count_edges() -> impl Strategy<Value = IndexM> {
+    let many = (
+        proptest::collection::vec((0u32..6, any::<u8>()), 0..4),
+        prop_oneof![3 => proptest::sample::select(vec![65535u32, 65536, 65537, 65538]), 1 => 65530u32..66000, 1 => 65536u32..200_000],
+        prop_oneof![3 => Just(0u8), 1 => 1u8..5],
+        any::<bool>(),
+    )
+        .prop_map(|(objs, count, off_size, c32)| {
+            let pad_empty = count - objs.len() as u32;
+            IndexM { objs, off_size, count32: c32 || count > 65535, pad_empty }
+        });
+    prop_oneof![600 => index_strategy(), 1 => many]
 }
 
 // ================================================================== charset / encoding / FDSelect
